@@ -334,9 +334,9 @@ Definition in_domain (c : call) : bool :=
   | FSubstitute | FNsubstitute => not_test_not (c_test c)               (* KF :test-not ignored *)
   | FSubstituteIf | FNsubstituteIf => true
   | FRemoveDuplicates | FDeleteDuplicates =>
-      (* a non-transitive test makes "matches a later element" and "matches a later KEPT element"
-         differ; under :from-end the argument order of the test is only fixed for symmetric tests *)
-      test_transitive (c_test c) && (negb (c_from_end c) || test_symmetric (c_test c))
+      (* under :from-end the test receives (later element, earlier element): the order the language
+         implies (sequence order) only for symmetric tests *)
+      not_test_not (c_test c) && (negb (c_from_end c) || test_symmetric (c_test c))
   | FMember => is_list (c_seq c) && not_test_not (c_test c)
   | FMemberIf => is_list (c_seq c)
   | FAssoc | FRassoc => is_list (c_seq c) && not_test_not (c_test c)     (* KF :test-not *)
